@@ -1,19 +1,37 @@
-use verif_harness::e2_handler::*;
-use inputlayer::{Tuple, Value};
+use inputlayer::{IQLEngine, Tuple, Value};
+use inputlayer::code_generator::CodeGenerator;
 fn main() {
-    let env = Env::new("probe");
-    env.create_kg("A");
-    let i = |x: i64| Value::Int64(x);
-    env.insert("A", "e", vec![Tuple::new(vec![i(1), i(2)]), Tuple::new(vec![i(2), i(3)])]);
-    env.insert("A", "m", vec![Tuple::new(vec![i(3)])]);
-    for r in ["+p(X, Y) <- e(X, Y)", "+p(X, Z) <- p(X, Y), e(Y, Z)", "+u(X, Y) <- p(X, Y), !m(Y), X < 2", "+w(X, 7) <- e(X, _)"] {
-        println!("{:?}", messages(&env.query_program(Some("A"), r)));
-    }
-    for q in [".why ?u(X, Y)", ".why ?p(1, Y)", ".why ?w(X, Y)", ".why_not u(1, 3)", ".why_not p(3, 1)", ".why_not p(1, 3)"] {
-        let r = env.query_program(Some("A"), q).unwrap();
-        println!("== {q}: rows {:?}", r.rows.iter().map(|t| format!("{:?}", t.values)).collect::<Vec<_>>());
-        for g in r.proof_trees.unwrap_or_default() {
-            println!("{}", serde_json::to_string(&g).unwrap());
+    let progs = [
+        "q(X, Z) <- e(X, Y), f(Y, Z), X < Z\n",
+        "q(X) <- e(X, X), f(X, 2), !m(X)\n",
+        "q(X, count<Y>) <- e(X, Y), f(Y, _)\n",
+        "q(X, S) <- e(X, Y), S = X + Y * 2, S > 3\n",
+        "q(X, Y) <- e(X, Y)\nq(X, Y) <- f(Y, X), m(X)\n",
+        "q(X, W) <- e(X, Y), f(Y, Z), w(Z, W, 1), m(W)\n",
+    ];
+    for p in progs {
+        let mut e = IQLEngine::new();
+        e.parse(p).unwrap();
+        let r = e.build_ir(false);
+        println!("== {p}  build: {:?}", r.is_ok());
+        for n in e.ir_nodes() {
+            println!("{}", n.pretty_print(1));
         }
     }
+    // timing
+    let mut e = IQLEngine::new();
+    e.parse(progs[0]).unwrap();
+    e.build_ir(false).unwrap();
+    let ir = e.ir_nodes()[0].clone();
+    let i = |x: i64| Value::Int64(x);
+    let t0 = std::time::Instant::now();
+    let n = 2000;
+    for _ in 0..n {
+        let mut cg = CodeGenerator::new();
+        cg.add_input("e".into(), vec![Tuple::new(vec![i(1), i(2)]), Tuple::new(vec![i(2), i(3)])]);
+        cg.add_input("f".into(), vec![Tuple::new(vec![i(2), i(3)])]);
+        let r = cg.execute(&ir).unwrap();
+        assert_eq!(r.len(), 1);
+    }
+    println!("per exec {:?}", t0.elapsed() / n);
 }
